@@ -4,6 +4,7 @@ CONSTANTS
   MaxCfgs = 2
   Emit = FALSE
   ResetPerConfig = TRUE
+  ShortcutAnyPlane = FALSE
 INVARIANT PlanesWellFormed
 INVARIANT RecordsCorrect
 INVARIANT Complete
